@@ -207,6 +207,8 @@ class SimWorld:
         self.chunk = k.get("chunk", "none")  # none | split2 | small
         self.clock_policy = k.get("clock", "inc")  # inc | coarse | stall | back
         self.read_steps = k.get("read_steps", True)
+        self.xdev_tmp = bool(k.get("xdev_tmp", False))  # tmp/ behaves like a separate file system
+        self.xdev_hits = 0
         self.rng_listing = derive(seed, "listing")
         self.rng_chunk = derive(seed, "chunk")
         self.rng_clock = derive(seed, "clock")
@@ -397,6 +399,12 @@ class SimWorld:
                 return orig(src, dst, *a, **kw)
             r1 = world.rel(src)
             r2 = world.rel(dst)
+            if world.xdev_tmp and kind in ("rename", "link") and r1 is not None and r2 is not None \
+                    and (r1.startswith("tmp/") != r2.startswith("tmp/")):
+                # knob: the temporary directory lives on another file system
+                world.step(kind, r1, r2)
+                world.xdev_hits += 1
+                raise OSError(_errno.EXDEV, "Invalid cross-device link (simulated: tmp is another file system)", src)
             if kind == "symlink":
                 # the link is created at dst; src is only text
                 if r2 is None:
